@@ -375,7 +375,10 @@ fn plan(property: &str, tier: &str) -> Option<Plan> {
             let levels: Vec<u32> = vec![0, 1, 2, 3];
             Some(Plan {
                 property: property.into(),
-                jobs: jobs_for(&progs, &ws),
+                // release part (tail-call dispatch): the tape and the interpreter context sit against guard pages and the
+                // worker runs under the supervisor, so that a subject that writes outside its blocks is reported as a case
+                // instead of corrupting the heap of the checking process
+                jobs: if cfg!(debug_assertions) { jobs_for(&progs, &ws) } else { jobs_for(&progs, &ws).into_iter().enumerate().map(|(i, j)| Job { guard: 1 + (i % 2) as u8, ..j }).collect() },
                 specs: Box::new(move |_j| levels.iter().map(|&l| Spec::full(Backend::Bc, l)).collect()),
                 cfg: base_cfg(property, tier),
                 time_box: Duration::from_secs(if thorough { 1000 } else { 100 }),
@@ -779,7 +782,7 @@ pub fn run_check(property: &str, tier: &str, part: Option<&str>, worker: bool) -
     if property == "C15" {
         return run_c15(tier);
     }
-    if !worker && matches!(property, "C06" | "C10") {
+    if !worker && (matches!(property, "C06" | "C10") || (property == "C02" && !cfg!(debug_assertions))) {
         return supervise(property, tier, part);
     }
     let tier = if tier == "thorough" { "thorough" } else { "quick" };
